@@ -90,7 +90,7 @@ func main() {
 		}
 		counter := 0
 		kept := 0
-		for round := 0; round < 5; round++ {
+		for round := 0; round < 9; round++ {
 			res := normalize.RoundKeep(pr, rules.CanonicalName(pr), cur, &counter, keep)
 			for _, sk := range res.Skipped {
 				normNotes = append(normNotes, tag+"left alone: "+sk)
